@@ -4,6 +4,7 @@ import PromProofs.SelectorsMemo
 import PromProofs.SelectorsSub
 import PromProofs.SelectorsWin
 import PromProofs.SelectorsJudge
+import PromProofs.SelectorsHints
 /-
   C28 — Selectors implement lookback, staleness and range windows.
 
@@ -266,6 +267,51 @@ theorem subquery_end_spec (pStart pEnd pInterval off range interval : Int) (hp :
 
 example : subquerySteps (-7) (-7) 1 0 10 5 = [-15, -10] := by decide
 example : subquerySteps 1010000 1010000 1 0 10000 3000 = [1002000, 1005000, 1008000] := by decide
+
+
+/-! ### whole queries as the suite's model evaluates them (querier range + incremental strategy) -/
+
+/-- what the suite's model computes for the range query `m offset off` (no `@`): one memoized iterator over the
+    samples the querier returns for `getTimeRangesForSelector`'s range, stepped through all steps — equals,
+    at every step, the documented instant lookup on the FULL series. -/
+theorem sel_query_spec (series : Series) (lb off qs qe interval : Int)
+    (hs : Sorted series) (hlb : 0 < lb) (hi : 0 < interval) :
+    evalSteps lb (Memo.init (visible (selectRange qs qe lb none none off 0) series) lb)
+        ((steps qs qe interval).map fun ts => ts - off)
+      = (steps qs qe interval).map (fun ts => instantSpec series (ts - off) lb) := by
+  have hsv := sorted_visible hs (selectRange qs qe lb none none off 0)
+  rw [memoized_seek_mono _ lb lb _ hsv hlb (by omega)]
+  · rw [List.map_map]
+    apply List.map_congr_left
+    intro ts hts
+    rw [mem_steps hi] at hts
+    obtain ⟨j, rfl, hle⟩ := hts
+    have : 0 ≤ (j : Int) * interval := Int.mul_nonneg (by omega) (by omega)
+    simp only [Function.comp]
+    apply instantSpec_visible hs
+    · simp [selectRange]; omega
+    · simp [selectRange]; omega
+  · unfold steps
+    have := stepsFrom_pairwise interval (by omega) (numSteps qs qe interval) qs
+    exact List.Pairwise.map _ (fun a b h => by omega) this
+
+/-- ... and for a range-vector function over `m[R] offset off`: the window handed to the function at every
+    step of the incremental loop, computed on the samples the querier returns, is the documented window of
+    the full series. -/
+theorem range_fn_query_spec (series : Series) (lb R off qs qe interval : Int)
+    (hs : Sorted series) (hR : 0 < R) (hi : 0 < interval) :
+    rangeLoop (visible (selectRange qs qe lb none none off R) series) R off qs qe interval
+      = (steps qs qe interval).map (fun ts => winSpec series (ts - off - R) (ts - off)) := by
+  rw [range_loop_spec _ R off qs qe interval (sorted_visible hs _) hR hi]
+  apply List.map_congr_left
+  intro ts hts
+  rw [mem_steps hi] at hts
+  obtain ⟨j, rfl, hle⟩ := hts
+  have : 0 ≤ (j : Int) * interval := Int.mul_nonneg (by omega) (by omega)
+  have hR' : R ≠ 0 := by omega
+  apply winSpec_visible
+  · simp [selectRange, hR']; omega
+  · simp [selectRange, hR']; omega
 
 
 /-! ### the judge's reference computations agree with the model (on well-formed series the model's own
